@@ -49,7 +49,7 @@ def contracts():
     ensures """ + FS_FRAME + """
         // C02: whatever the file held before, a successful write leaves exactly the new content
         r is Ok ==> final(w).fs.files.contains_key(file_path_spec(*fm, file_type))
-            && final(w).fs.files[file_path_spec(*fm, file_type)] == data@, //@C02.exact_content
+            && final(w).fs.files[file_path_spec(*fm, file_type)] == data@, //@C02.exact_content,C07.success_is_reported_only_when_the_file_is_installed,C03.what_is_reported_written_is_written
         // nothing but the target file is touched
         others_untouched(old(w).fs, final(w).fs, file_path_spec(*fm, file_type)), //@C02.other_files_untouched
         // C13: a file that did not exist is created with the mode configured for its type (0600 for accounts)
@@ -68,7 +68,7 @@ def contracts():
     proof {
         let p = file_path_spec(*fm, file_type);
         // (stated before the trace below: a failed proof step is assumed by the verifier, and must not hide this clause)
-        assert(w.fs.files.contains_key(p) && w.fs.files[p] == data@); //@C02.exact_content
+        assert(w.fs.files.contains_key(p) && w.fs.files[p] == data@); //@C02.exact_content,C07.success_is_reported_only_when_the_file_is_installed,C03.what_is_reported_written_is_written
         assert(w.fs.events =~= old(w).fs.events + write_trace(*fm, file_type, !old(w).fs.files.contains_key(p))); //@C10.file_hook_bracket,C13.chown_after_write
     }""")])
     for name, ft in [("set_account_data", "Account"), ("write_certificate", "Certificate")]:
@@ -149,10 +149,10 @@ def build():
     c = contracts()
     u.verify(S, "get_file_full_path", "storage", props=["C02", "C03", "C13"], fns={"get_file_full_path": c["get_file_full_path"]})
     for name, props in [("get_file_path", ["C02"]), ("read_file", ["C02"]), ("set_owner", ["C13"]),
-                        ("write_file", ["C02", "C13", "C10", "C03"]), ("get_account_data", ["C11"]),
-                        ("set_account_data", ["C02", "C13"]), ("get_keypair_path", ["C02"]), ("get_keypair", ["C01"]),
-                        ("set_keypair", ["C02", "C13"]), ("get_certificate_path", ["C02"]), ("get_certificate", ["C06"]),
-                        ("write_certificate", ["C02", "C13"]), ("check_files", ["C06"]),
+                        ("write_file", ["C02", "C13", "C10", "C03", "C07"]), ("get_account_data", ["C11"]),
+                        ("set_account_data", ["C02", "C13", "C11"]), ("get_keypair_path", ["C02"]), ("get_keypair", ["C01"]),
+                        ("set_keypair", ["C02", "C13", "C03", "C07"]), ("get_certificate_path", ["C02"]), ("get_certificate", ["C06"]),
+                        ("write_certificate", ["C02", "C13", "C03", "C07"]), ("check_files", ["C06"]),
                         ("account_files_exists", ["C11"]), ("certificate_files_exists", ["C06"])]:
         u.verify(S, name, "storage", props=props, fns={name: c[name]} if name in c else {name: FnSpec(ret="r")})
     # --- acme_proto/certificate.rs: where the key pair of an issuance comes from
